@@ -12,7 +12,7 @@ from . import sched_common as sc
 from .. import common
 from ..schedlib import CACHE, layout, model_request, run_impl
 
-MODULES = sc.MODULES + ["Net", "Output", "OutputLemmas", "Props.C05Run", "Props.C03Run", "Props.C01Run"]
+MODULES = sc.MODULES + ["Net", "NetC", "Output", "OutputLemmas", "Props.C05Run", "Props.C03Run", "Props.C01Run"]
 GEN_OBLIGATIONS = sc.GEN_OBLIGATIONS
 THEOREM_DEPS = ["C01Run"]
 
@@ -98,10 +98,23 @@ def gen_net(rng):
     return s
 
 
-def check_net(specs, res):
+def gen_netc(rng):
+    """like gen_net, with at most one push-based adapter (Linear / Step / Next / Previous) per link: upstream of it only
+    Scale, downstream Scale / DelayFixed"""
+    s = sc.gen_dag(rng, kinds=["scale", "dfix"], pull_comps=False, statics=False, max_chain=2)
+    for l in s["links"]:
+        if rng.random() < 0.6:
+            up = [["scale"]] if rng.random() < 0.3 else []
+            l["ads"] = up + [[rng.choice(["lin", "step", "next", "prev"])]] + l["ads"]
+    s["record_retained"] = True
+    return s
+
+
+def check_net(specs, res, request=None):
     """retained history length of every output after every update, and every pull answered: model vs package"""
     from ..schedlib import net_request
-    reqs, orders = zip(*[net_request(s) for s in specs]) if specs else ([], [])
+    request = request or net_request
+    reqs, orders = zip(*[request(s) for s in specs]) if specs else ([], [])
     models = common.lean_batch(list(reqs))
     for s, m, order in zip(specs, models, orders):
         impl = run_impl(s)
@@ -133,6 +146,8 @@ def run(ctx, res):
     specs = corpus() + [gen(ctx) for _ in range(ctx.n(300, 6000))]
     sc.run_cases(specs, res, [oracle])
     check_net([gen_net(ctx.rng) for _ in range(ctx.n(120, 2500))], res)
+    from ..schedlib import netc_request
+    check_net([gen_netc(ctx.rng) for _ in range(ctx.n(120, 2500))], res, request=netc_request)
 
 
 def search(ctx, res, divergences, broken):
